@@ -26,6 +26,7 @@ import (
 	"github.com/cornelk/hashmap"
 	"github.com/pkg/errors"
 
+	"rcproxy/core/pkg/constant"
 	"rcproxy/core/pkg/logging"
 	"rcproxy/core/pkg/redis"
 )
@@ -108,27 +109,33 @@ func (c *ClusterNodes) loopClusterNodes() {
 	for {
 		select {
 		case msg := <-EngineGlobal.clusterChan:
+			// an unusable probe reply is skipped; the loop must stay alive for the next one
 			if len(msg) < 3 {
-				return
+				continue
 			}
 			if msg[0] == '+' && msg[1] == 'O' && msg[2] == 'K' {
-				return
+				continue
 			}
 			if msg[0] == '$' && msg[1] == '-' && msg[2] == '1' {
-				return
+				continue
+			}
+			lf := bytes.IndexByte(msg, '\n')
+			if msg[0] != '$' || lf < 2 || len(msg)-3 < lf+1 {
+				logging.Errorf("[cluster loop] update cluster nodes: not a nodes text reply")
+				continue
 			}
 
-			length, err := parseLen(msg[1 : bytes.IndexByte(msg, '\n')-1])
+			length, err := parseLen(msg[1 : lf-1])
 			if err != nil {
 				logging.Errorf("[cluster loop] update cluster nodes: nodes info invalid: %s", err)
-				return
+				continue
 			}
 			if length > 163840 {
 				logging.Errorf("[cluster loop] update cluster nodes: nodes info too large > 163840")
-				return
+				continue
 			}
 
-			if err := c.updateClusterNodes(string(msg[bytes.IndexByte(msg, '\n')+1 : len(msg)-3])); err != nil {
+			if err := c.updateClusterNodes(string(msg[lf+1 : len(msg)-3])); err != nil {
 				logging.Errorf("[cluster loop] update cluster nodes err: %s", err)
 			}
 		}
@@ -162,7 +169,8 @@ func (c *ClusterNodes) isChanged(allNodes []*ClusterNode) (changed bool) {
 		if n.Role == Master {
 			serverNames = append(serverNames, fmt.Sprintf("%s#%d#%v", n.Addr, n.Role, n.Slots))
 		} else {
-			serverNames = append(serverNames, fmt.Sprintf("%s#%d", n.Addr, n.Role))
+			// a replica that moved to another master changes the routing table too
+			serverNames = append(serverNames, fmt.Sprintf("%s#%d#%s", n.Addr, n.Role, n.MasterId))
 		}
 	}
 	sort.Strings(serverNames)
@@ -369,12 +377,18 @@ func (c *ClusterNode) parseSlot(slotsStr string) (int32, int32, error) {
 	if err != nil {
 		return -1, -1, errors.New("slot parse failed")
 	}
+	if start < 0 || start >= constant.RedisClusterSlots {
+		return -1, -1, errors.New("slot out of range")
+	}
 	if len(slots) <= 1 {
 		return int32(start), int32(start), nil
 	}
 	end, err = strconv.ParseInt(slots[1], 10, 32)
 	if err != nil {
 		return -1, -1, errors.New("slot parse failed")
+	}
+	if start > end || end >= constant.RedisClusterSlots {
+		return -1, -1, errors.New("slot out of range")
 	}
 	return int32(start), int32(end), nil
 }
